@@ -18,13 +18,14 @@ EXTENDS Naturals, Sequences, FiniteSets
 (* loop iterations of clean-up while being cancelled)                                                                       *)
 (* plainZero / plainFalse / plainEmpty: plain methods returning 0 / False / an empty bytes object - values all the same              *)
 Kinds == {"coroVal", "coroRaise", "plainNone", "plainVal", "plainRaise", "notCallable", "coroWait", "coroSlow",
-          "plainZero", "plainFalse", "plainEmpty", "plainWraps", "shadowPlain", "shadowCoro"}
+          "plainZero", "plainFalse", "plainEmpty", "plainWraps", "shadowPlain", "shadowCoro", "coroForget"}
+(* coroForget: a coroutine method whose caller never awaits what the call returned - the call was made, so it is executed all the same *)
 (* shadowPlain: a plain function stored on the instance under the name of a coroutine method of the class; shadowCoro: the other way round - what counts is the attribute actually fetched *)        \* plainWraps: a plain function that wraps (functools.wraps) a coroutine function
 PlainValued == {"plainVal", "plainZero", "plainFalse", "plainEmpty"}
-IsCoro(k) == k \in {"coroVal", "coroRaise", "coroWait", "coroSlow", "shadowCoro"}
+IsCoro(k) == k \in {"coroVal", "coroRaise", "coroWait", "coroSlow", "shadowCoro", "coroForget"}
 
 (* what the body produces when it runs *)
-BodyOutcome(k) == CASE k \in {"coroVal", "coroWait", "coroSlow", "shadowCoro"} -> "val" [] k = "coroRaise" -> "exc" [] k = "plainNone" -> "none"
+BodyOutcome(k) == CASE k \in {"coroVal", "coroWait", "coroSlow", "shadowCoro", "coroForget"} -> "val" [] k = "coroRaise" -> "exc" [] k = "plainNone" -> "none"
                     [] k \in PlainValued -> "val" [] k = "plainRaise" -> "exc" [] OTHER -> "none"
 
 (* Invoke: the caller's side of proxy.method(...) up to the point where it returns to the caller *)
